@@ -27,16 +27,16 @@ func aggxUniverse() []stack.Signature {
 		return s
 	}
 	return []stack.Signature{
-		mk("chan receive", false, 0, 10, false, "", ptr(0xc000010000), val(1), agg(val(2), ptr(0xc000020000))),      // 0 base
-		mk("chan receive", false, 0, 10, false, "", ptr(0xc000010008), val(1), agg(val(2), ptr(0xc000020000))),      // 1 another pointer
-		mk("chan receive", false, 0, 10, false, "", ptr(0xc000010000), val(7), agg(val(2), ptr(0xc000020000))),      // 2 another value
-		mk("chan receive", false, 0, 10, false, "", ptr(0xc000010000), val(1), agg(val(3), ptr(0xc000020008))),      // 3 differs inside the aggregate
-		mk("chan receive", false, 5, 10, false, "", ptr(0xc000010000), val(1), agg(val(2), ptr(0xc000020000))),      // 4 slept
-		mk("chan receive", true, 0, 10, false, "", ptr(0xc000010000), val(1), agg(val(2), ptr(0xc000020000))),       // 5 locked
-		mk("chan receive", false, 0, 11, false, "", ptr(0xc000010000), val(1), agg(val(2), ptr(0xc000020000))),      // 6 another line
-		mk("select", false, 0, 10, false, "", ptr(0xc000010000), val(1), agg(val(2), ptr(0xc000020000))),            // 7 another state
+		mk("chan receive", false, 0, 10, false, "", ptr(0xc000010000), val(1), agg(val(2), ptr(0xc000020000))),           // 0 base
+		mk("chan receive", false, 0, 10, false, "", ptr(0xc000010008), val(1), agg(val(2), ptr(0xc000020000))),           // 1 another pointer
+		mk("chan receive", false, 0, 10, false, "", ptr(0xc000010000), val(7), agg(val(2), ptr(0xc000020000))),           // 2 another value
+		mk("chan receive", false, 0, 10, false, "", ptr(0xc000010000), val(1), agg(val(3), ptr(0xc000020008))),           // 3 differs inside the aggregate
+		mk("chan receive", false, 5, 10, false, "", ptr(0xc000010000), val(1), agg(val(2), ptr(0xc000020000))),           // 4 slept
+		mk("chan receive", true, 0, 10, false, "", ptr(0xc000010000), val(1), agg(val(2), ptr(0xc000020000))),            // 5 locked
+		mk("chan receive", false, 0, 11, false, "", ptr(0xc000010000), val(1), agg(val(2), ptr(0xc000020000))),           // 6 another line
+		mk("select", false, 0, 10, false, "", ptr(0xc000010000), val(1), agg(val(2), ptr(0xc000020000))),                 // 7 another state
 		mk("chan receive", false, 0, 10, false, "main.spawn", ptr(0xc000010000), val(1), agg(val(2), ptr(0xc000020000))), // 8 a creator
-		mk("chan receive", false, 0, 10, true, "", ptr(0xc000010000), val(1), agg(val(2))),                           // 9 elided, other shape
+		mk("chan receive", false, 0, 10, true, "", ptr(0xc000010000), val(1), agg(val(2))),                               // 9 elided, other shape
 	}
 }
 
